@@ -48,10 +48,6 @@ def sc_posterior(d, kind, n, nq, weights):
     miss, yv, y, lab = _targets(d, n)
     reg, proper = _make_nic(d, kind, n, nq)
     ws = [d.fl(f"w{i}", lo=0.0) for i in range(n)] if weights else None
-    if weights and not lab:
-        if d.sym:
-            raise core.PathAbort("weights with no labeled sample are rejected (documented)")
-        return
     xs = [d.fl(f"x{i}") for i in range(n)]
     try:
         reg.fit(d.arr([[x] for x in xs], shape=(n, 1)), y, None if ws is None else d.arr(ws))
@@ -59,13 +55,25 @@ def sc_posterior(d, kind, n, nq, weights):
         # documented: weights that are all zero on the labeled samples are rejected - and nothing else is
         if not weights:
             raise
+        if not lab:
+            # no labeled sample: there is no weight to object to - the training set "zero labeled samples" is inside the
+            # property's quantifier with and without weights
+            d.prove(False, "fit_accepts_zero_labeled_samples_with_weights", info=dict(error=repr(e)[:120]))
+            return
         tot = ws[lab[0]]
         for i in lab[1:]:
             tot = tot + ws[i]
         d.prove(d.eq(tot, 0.0), "fit_rejects_only_zero_weight_on_the_labeled_samples", info=dict(error=repr(e)[:120]))
         return
     # query points; the kernel between them and the labeled samples is an uninterpreted positive function (rbf in the replay)
-    Kq = d.arr([[d.fl(f"q{i}", lo=-4.0, hi=4.0)] for i in range(nq)], shape=(nq, 1))
+    # (query points anywhere: far from every labeled sample the kernel underflows to exactly 0 in floats, which the
+    #  kernel stub allows - the replay re-draws the query point in this range)
+    far = 1000.0 if proper else 4.0
+    if not proper and d.sym:
+        # Nadaraya-Watson has no prior to fall back to: where the kernel underflows to 0 for every labeled sample no
+        # prediction is defined (outside the claim); its kernel values are kept strictly positive
+        d.c.kernel_strictly_positive = True
+    Kq = d.arr([[d.fl(f"q{i}", lo=-far, hi=far)] for i in range(nq)], shape=(nq, 1))
     if not proper and len(lab) < 1:
         return  # Nadaraya-Watson needs at least one label (property's quantifier)
     try:
